@@ -153,6 +153,8 @@ pub enum Op {
     Eval { h: usize, g: usize, aux: usize },
     /// handle `dst` becomes a clone of handle `src`
     CloneTo { src: usize, dst: usize },
+    /// handle `dst` becomes `src.update_temperature(T_src * factor)`
+    UpdateT { src: usize, dst: usize, factor: f64 },
 }
 
 #[derive(Serialize, Deserialize, Clone, Debug)]
@@ -258,15 +260,16 @@ pub fn check(case: &Case, obs: &mut Obs) {
         return;
     }
     // reference values: every getter on its own fresh state
-    let reference = |g: usize, aux: usize| -> Option<Ref> {
-        let value = eval(&fresh(&sys)?, g, aux, sys.has_mw, sys.has_transport)?;
-        let sp = State::new_nvt(&sys.eos, sys.inputs.0, sys.inputs.1 * (1.0 + PERT), &sys.inputs.2).ok()?;
+    let fresh_at = |t: Temperature| State::new_nvt(&sys.eos, t, sys.inputs.1, &sys.inputs.2).ok();
+    let reference_at = |g: usize, aux: usize, temp: Temperature| -> Option<Ref> {
+        let value = eval(&fresh_at(temp)?, g, aux, sys.has_mw, sys.has_transport)?;
+        let sp = State::new_nvt(&sys.eos, temp, sys.inputs.1 * (1.0 + PERT), &sys.inputs.2).ok()?;
         let vp = eval(&sp, g, aux, sys.has_mw, sys.has_transport)?;
         if vp.len() != value.len() {
             return None;
         }
         // natural scale of getters that vanish by exact cancellation (ideal-gas limit, pure fluids)
-        let s = fresh(&sys)?;
+        let s = fresh_at(temp)?;
         let (t, v, ntot, rho) = (s.temperature.to_reduced(), s.volume.to_reduced(), s.total_moles.to_reduced(), s.density.to_reduced());
         let floor = match g {
             19 => 2.0 * t / rho,
@@ -284,18 +287,21 @@ pub fn check(case: &Case, obs: &mut Obs) {
             .collect();
         Some(Ref { value, sens })
     };
+    let reference = |g: usize, aux: usize| reference_at(g, aux, sys.inputs.0);
 
     if case.threads == 0 {
         // sequential history over up to 3 handles
         let mut handles: Vec<S> = vec![fresh(&sys).unwrap(), fresh(&sys).unwrap(), fresh(&sys).unwrap()];
+        let mut temps = [sys.inputs.0; 3];
         let mut evaluated = [0usize; 3];
+        let mut update_after_eval = false;
         let mut order_keys: Vec<usize> = vec![];
         let mut clone_after_eval = false;
         for (step, op) in case.ops.iter().enumerate() {
             match op {
                 Op::Eval { h, g, aux } => {
                     let h = h % 3;
-                    let Some(r) = reference(*g, *aux) else { continue };
+                    let Some(r) = reference_at(*g, *aux, temps[h]) else { continue };
                     let Some(got) = eval(&handles[h], *g, *aux, sys.has_mw, sys.has_transport) else { continue };
                     compare(obs, &format!("step {step} getter {g} aux {aux} on handle {h}"), &got, &r);
                     evaluated[h] += 1;
@@ -311,6 +317,19 @@ pub fn check(case: &Case, obs: &mut Obs) {
                         }
                         handles[dst] = handles[src].clone();
                         evaluated[dst] = evaluated[src];
+                        temps[dst] = temps[src];
+                    }
+                }
+                Op::UpdateT { src, dst, factor } => {
+                    let (src, dst) = (src % 3, dst % 3);
+                    let tnew = temps[src] * *factor;
+                    if let Ok(st) = handles[src].update_temperature(tnew) {
+                        if evaluated[src] > 0 {
+                            update_after_eval = true;
+                        }
+                        handles[dst] = st;
+                        temps[dst] = tnew;
+                        evaluated[dst] = 0;
                     }
                 }
             }
@@ -332,7 +351,10 @@ pub fn check(case: &Case, obs: &mut Obs) {
         if clone_after_eval {
             obs.class("clone after evaluation");
         }
-        if higher_first || clone_after_eval {
+        if update_after_eval {
+            obs.class("update_temperature after evaluation");
+        }
+        if higher_first || clone_after_eval || update_after_eval {
             obs.nontrivial();
         }
         obs.class(format!("len<={}", ((case.ops.len() + 9) / 10) * 10));
@@ -508,6 +530,12 @@ fn gen_ops(g: &mut Gen, maxlen: usize, with_clone: bool) -> Vec<Op> {
                 Op::CloneTo {
                     src: g.index(3),
                     dst: g.index(3),
+                }
+            } else if with_clone && g.bool(0.08) {
+                Op::UpdateT {
+                    src: g.index(3),
+                    dst: g.index(3),
+                    factor: g.range(0.9, 1.15),
                 }
             } else {
                 // half of the evaluations use the atomic getters (pure cache-key traffic)
@@ -700,7 +728,7 @@ const PAR: PartCfg = PartCfg {
 };
 
 pub fn run(ctx: &Ctx) {
-    ctx.set_rule("lattice: EXHAUSTIVE enumeration of all sequences of the 12 atomic getters (one per cache-key class: Zeroth, First(DV|DT|DN), Second(DV|DT), Mixed(DV,DT|DV,DN|DT,DN|DN,DN), Third(DV|DT)) up to length 2 (quick) / 3 (thorough) on 5 fixed systems (cross-associating, polar, cubic, group-contribution, transport). history: proptest-generated operation sequences (length 1-50) over 66 getters x selector/index arguments and clone operations on 3 state handles, on fixed systems and the whole model zoo. threads: the same sequences distributed over 2-16 real threads sharing one state (barrier start, 5 repetitions). par_pure: (record of the Gross-Sadowski PC-SAFT collections, T_min/T_c, npoints in [3,200], chunksize in [1,npoints], two pool sizes from {1,2,3,4,8,16}). Oracle: each returned value equals the value of the same getter on its own fresh state (rtol 1e-9 of the largest component plus 100x the change of the getter under a 1e-11 relative volume perturbation, which measures its conditioning). Non-trivial: a higher-order cache key evaluated before a lower-order one it produces as by-product, or a clone after an evaluation; threads: at least 2 evaluations per thread; par_pure: more than one chunk on more than one thread.");
+    ctx.set_rule("lattice: EXHAUSTIVE enumeration of all sequences of the 12 atomic getters (one per cache-key class: Zeroth, First(DV|DT|DN), Second(DV|DT), Mixed(DV,DT|DV,DN|DT,DN|DN,DN), Third(DV|DT)) up to length 2 (quick) / 3 (thorough) on 5 fixed systems (cross-associating, polar, cubic, group-contribution, transport). history: proptest-generated operation sequences (length 1-50) over 66 getters x selector/index arguments and clone / update_temperature operations on 3 state handles, on fixed systems and the whole model zoo. threads: the same sequences distributed over 2-16 real threads sharing one state (barrier start, 5 repetitions). par_pure: (record of the Gross-Sadowski PC-SAFT collections, T_min/T_c, npoints in [3,200], chunksize in [1,npoints], two pool sizes from {1,2,3,4,8,16}). Oracle: each returned value equals the value of the same getter on its own fresh state (rtol 1e-9 of the largest component plus 100x the change of the getter under a 1e-11 relative volume perturbation, which measures its conditioning). Non-trivial: a higher-order cache key evaluated before a lower-order one it produces as by-product, or a clone / update_temperature after an evaluation; threads: at least 2 evaluations per thread; par_pure: more than one chunk on more than one thread.");
     ctx.assume("by-products cached from different dual-number types differ at 2e-16; composite getters amplify this, hence rtol 1e-9 (a mis-keyed or stale entry gives O(1) errors); states with f_eta < 0.02 are not used here (cancellation between contributions makes A_res itself only 1e-9 accurate there)");
     ctx.assume("thread schedules: lookup+compute happen under one Mutex lock, so any concurrent execution is equivalent to an interleaving of whole getter calls; real-thread runs are a stress supplement, not an enumeration of interleavings");
     ctx.assume("par_pure vs pure: chunks restart without the previous point's guess, so densities/pressures are compared to 1e-8 (solver tolerance), temperatures and pool-size independence to 1e-13");
